@@ -474,7 +474,13 @@ func (r *Redir) Pos() Pos {
 func (r *Redir) End() Pos {
 	switch r.Op {
 	case "<<", "<<-":
-		return r.Delim.End()
+		switch {
+		case len(r.Delim) != 0:
+			return r.Delim.End()
+		case len(r.Heredoc) != 0:
+			// the delimiter is empty
+			return r.Heredoc.End()
+		}
 	}
 	return r.Word.End()
 }
